@@ -119,11 +119,16 @@ def float_fits(x, kind):
     return True
 
 
-def conforms(node, table, d, tuple_notation=True, strict=False, _depth=0):
-    """Documented Python mapping (see property C10)."""
+def conforms(node, table, d, tuple_notation=True, strict=False, _depth=0, hook=None):
+    """Documented Python mapping (see property C10).  hook(node, d) may answer True/False for a node (logical types:
+    vlib/ref/select.py) or None to let the base type decide."""
+    if hook is not None and node["k"] != "ref":
+        h = hook(node, d)
+        if h is not None:
+            return h
     k = node["k"]
     if k == "ref":
-        return conforms(table[node["name"]], table, d, tuple_notation, strict, _depth)
+        return conforms(table[node["name"]], table, d, tuple_notation, strict, _depth, hook)
     if k == "null":
         return d is None
     if k == "boolean":
@@ -143,12 +148,12 @@ def conforms(node, table, d, tuple_notation=True, strict=False, _depth=0):
     if k == "enum":
         return isinstance(d, str) and d in node["symbols"]
     if k == "array":
-        return is_seq(d) and all(conforms(node["items"], table, x, tuple_notation, strict, _depth + 1) for x in d)
+        return is_seq(d) and all(conforms(node["items"], table, x, tuple_notation, strict, _depth + 1, hook) for x in d)
     if k == "map":
         return (
             isinstance(d, cabc.Mapping)
             and all(isinstance(key, str) for key in d)
-            and all(conforms(node["values"], table, v, tuple_notation, strict, _depth + 1) for v in d.values())
+            and all(conforms(node["values"], table, v, tuple_notation, strict, _depth + 1, hook) for v in d.values())
         )
     if k == "record":
         if not isinstance(d, cabc.Mapping):
@@ -157,14 +162,14 @@ def conforms(node, table, d, tuple_notation=True, strict=False, _depth=0):
             return False
         for f in node["fields"]:
             if f["name"] in d:
-                if not conforms(f["type"], table, d[f["name"]], tuple_notation, strict, _depth + 1):
+                if not conforms(f["type"], table, d[f["name"]], tuple_notation, strict, _depth + 1, hook):
                     return False
             elif "default" in f:
                 continue
             else:
                 if strict:
                     return False
-                if not conforms(f["type"], table, None, tuple_notation, strict, _depth + 1):
+                if not conforms(f["type"], table, None, tuple_notation, strict, _depth + 1, hook):
                     return False
         return True
     if k == "union":
@@ -174,9 +179,9 @@ def conforms(node, table, d, tuple_notation=True, strict=False, _depth=0):
             name, v = d
             for b in node["branches"]:
                 if branch_name(b, table) == name:
-                    return conforms(b, table, v, tuple_notation, strict, _depth + 1)
+                    return conforms(b, table, v, tuple_notation, strict, _depth + 1, hook)
             return False
-        return any(conforms(b, table, d, tuple_notation, strict, _depth + 1) for b in node["branches"])
+        return any(conforms(b, table, d, tuple_notation, strict, _depth + 1, hook) for b in node["branches"])
     raise RefError("other", f"kind {k}")
 
 
